@@ -348,6 +348,7 @@ Definition step2 (w : world) (op : list (list Z)) : world * result :=
    [43];[0 nd si st];[opcode];data;other    -> bytes after the bulk operation (opcode 0 set, 1 and, 2 or,
                                                3 xor, 4 invert; other = one byte (boolean operand: 255 / 0)
                                                or the aligned operand's bytes)
+   [46];[0 nd si st];data                   -> population count of the view (sum())
    [44];[kind];locs;data                    -> bytes after set (0) / clear (1) of the bits at locs, or the
                                                tested bits (2), or set locs then clear the locs of group 4 (3);
                                                locs already shifted by the start index *)
@@ -365,6 +366,9 @@ Definition packed_monitor (op : list (list Z)) : result :=
     let d := extract_fml (view_of (grp op 1)) in
     [ok1; [f_lo d; f_hi d; m_lo d; m_hi d; l_lo d; l_hi d]]
   else if code =? 42 then [ok1; [lut_entry (gz op 1 0)]]
+  else if code =? 46 then
+    (* [46];[0 nd si st];data -> sum() of the view *)
+    [ok1; [sum_view (view_of (grp op 1)) (grp op 2)]]
   else if code =? 45 then
     (* [45];[producer code] -> what the producer's result shares with its first argument *)
     let s := prod_shares (gz op 1 0) in
